@@ -1,5 +1,6 @@
 import AFDriver.Wire
 import AFModel.FitFS
+import AFModel.FitPlan
 
 /-! Driver for C06: decodes an abstract file-system state + settings, runs `AF.FitFS.run`,
 answers with the step list, the outcome, the final state, the invariant `safe` and (on request)
@@ -113,6 +114,33 @@ def jsonOfOpt (o : Option View) : Json :=
   | none => Json.null
   | some r => jsonOfView r
 
+/-! the call tables compiled into this driver (`AFModel/Generated/C06.lean`), in the shape
+`harness/tables_c06.py` produces them -/
+
+def lastName (s : String) : String := (s.splitOn ".").getLast!
+
+def jsonOfTok : AF.FitFS.Src.Tok → Json
+  | .unknown n => Json.arr #["unknown", n]
+  | t => Json.str (lastName (toString (repr t)))
+
+def jsonOfGCall (c : AF.FitFS.Src.GCall) : Json :=
+  Json.arr #[jsonOfTok c.name,
+    Json.arr (c.guards.map fun g => Json.arr #[Json.str (lastName (toString (repr g.1))), Json.bool g.2]).toArray]
+
+def jsonOfTable (l : List AF.FitFS.Src.GCall) : Json := Json.arr (l.map jsonOfGCall).toArray
+
+open AF.FitFS.Gen in
+def tablesJson : Json := Json.mkObj [
+  ("fit", jsonOfTable fit), ("preFit", jsonOfTable preFit), ("startResume", jsonOfTable startResume),
+  ("performUpdate", jsonOfTable performUpdate), ("completedFit", jsonOfTable completedFit),
+  ("postFit", jsonOfTable postFit), ("outputInternal", jsonOfTable outputInternal),
+  ("restore", jsonOfTable restore), ("zipRemove", jsonOfTable zipRemove), ("zip", jsonOfTable zip),
+  ("zipDirectory", jsonOfTable zipDirectory), ("saveJson", jsonOfTable saveJson),
+  ("saveSearchInternal", jsonOfTable saveSearchInternal), ("completed", jsonOfTable completed),
+  ("saveSamples", jsonOfTable saveSamples), ("saveSamplesInner", jsonOfTable saveSamplesInner),
+  ("saveSamplesSummary", jsonOfTable saveSamplesSummary), ("timerStart", jsonOfTable timerStart),
+  ("timerUpdate", jsonOfTable timerUpdate), ("writeTable", jsonOfTable writeTable)]
+
 end AF.Driver.C06
 
 namespace AF.Driver
@@ -128,7 +156,26 @@ def handleC06 (j : Json) : Except String Json := do
   let cfg ← cfgOfJson (← j.getObjVal? "cfg")
   let st ← settingsOfJson (← j.getObjVal? "st")
   let fs ← fsOfJson (← j.getObjVal? "fs")
-  if q == "exec" then
+  if q == "plan" then
+    -- the steps of one call of `fit` read off the source tables, beside those of `run` under the
+    -- configuration the source stands for (the two semantic flags taken from `cfg`)
+    let n := (getNat j "n").toOption.getD 0
+    let scfg := Plan.srcCfg cfg.fomCheckSound cfg.lbfgsResumes
+    let r := run scfg st n fs
+    let plan := Plan.planSteps st n fs
+    pure (Json.mkObj [
+      ("plan", Json.arr (jsonOfSteps fs plan).toArray),
+      ("run", Json.arr (jsonOfSteps fs r.steps).toArray),
+      ("outcome", (jsonOfOutcome r.outcome).head!.2),
+      ("safe", Json.bool (safe st fs)),
+      ("hyp", Json.bool (scfg.sound st)),
+      ("sampled", Json.bool (sampled plan)),
+      ("completed_after", jsonOfOpt (completedResult (applyAll fs plan))),
+      ("src_cfg", Json.mkObj [("zip_atomic", Json.bool Plan.srcZipAtomic),
+        ("restore_validates", Json.bool Plan.srcRestoreValidates),
+        ("atomic_writes", Json.bool Plan.srcAtomicWrites)]),
+      ("tables", tablesJson)])
+  else if q == "exec" then
     -- replay a history; report the state after every event
     let evs ← (← getArr j "history").toList.mapM eventOfJson
     let rec go (fs : FS) : List Event → List Json
